@@ -77,8 +77,8 @@ suite!(t_tuple8, 0, 0, 4, [enc dec delim], (u8, u16, u8, u8, bool, u8, u8, i8));
 suite!(t_tuple8_off, 0, 0, 4, [trunc], (u8, u16, u8, u8, bool, u8, u8, i8)); //@ group=b tier=off
 
 // ---- sequences (element count <= maxv, every count enumerated)
-suite!(t_vec_u16, 2, 0, 6, [enc dec delim trunc], Vec<u16>); //@ group=b tier=quick
-suite!(t_vec_u16_thorough, 2, 0, 6, [sinks], Vec<u16>); //@ group=b tier=thorough
+suite!(t_vec_u16, 2, 0, 6, [enc dec delim], Vec<u16>); //@ group=b tier=quick
+suite!(t_vec_u16_thorough, 2, 0, 6, [trunc sinks], Vec<u16>); //@ group=b tier=thorough
 suite!(t_vec_u16_3, 3, 0, 6, [enc dec delim], Vec<u16>); //@ group=b tier=thorough
 suite!(t_vec_u16_3_off, 3, 0, 6, [trunc], Vec<u16>); //@ group=b tier=off
 suite!(t_list_u16, 2, 0, 6, [enc dec delim], LinkedList<u16>); //@ group=b tier=thorough
@@ -114,7 +114,8 @@ suite!(t_month, 0, 0, 4, [enc dec delim trunc], chrono::Month); //@ group=b tier
 suite!(t_fixed_offset, 0, 0, 4, [enc dec delim], chrono::FixedOffset); //@ group=b tier=thorough
 suite!(t_fixed_offset_off, 0, 0, 4, [trunc], chrono::FixedOffset); //@ group=b tier=off
 suite!(t_datetime_utc, 0, 0, 4, [enc dec delim trunc], chrono::DateTime<chrono::Utc>); //@ group=b tier=off
-suite!(t_naive_date, 0, 0, 4, [enc dec delim trunc], chrono::NaiveDate); //@ group=b tier=quick cap=900
+suite!(t_naive_date, 0, 0, 4, [enc dec delim], chrono::NaiveDate); //@ group=b tier=quick cap=900
+suite!(t_naive_date_thorough, 0, 0, 4, [trunc], chrono::NaiveDate); //@ group=b tier=thorough cap=900
 suite!(t_naive_time, 0, 0, 4, [enc dec delim], chrono::NaiveTime); //@ group=b tier=thorough cap=900
 suite!(t_naive_time_off, 0, 0, 4, [trunc], chrono::NaiveTime); //@ group=b tier=off cap=900
 suite!(t_naive_datetime_off, 0, 0, 4, [enc], chrono::NaiveDateTime); //@ group=b tier=off
